@@ -153,7 +153,9 @@ Definition leak_of (c : cfg) (st : astate) (nx : N) (o : op) : list N :=
           end
       | None => []
       end
-  | OWithCapacity dst bk _ => if resizable bk then new_leak c st dst bk else []
+  | OWithCapacity dst bk n =>
+      (* a refused capacity replaces nothing *)
+      if resizable bk then (if layout_limit c bk <? c_sz c * n then [] else new_leak c st dst bk) else []
   | ONew dst bk =>
       (* a vector built into an occupied slot replaces what was there *)
       new_leak c st dst bk
@@ -1307,7 +1309,9 @@ Proof.
   - (* ONew *)
     exact (new_own st nx dst bk r D L Hr Hinv).
   - (* OWithCapacity *)
-    cbn [leak_of]. destruct (resizable bk); [|discriminate]. exact (new_own st nx dst bk r D L Hr Hinv).
+    cbn [leak_of]. destruct (resizable bk); [|discriminate].
+    destruct (layout_limit c bk <? c_sz c * n); [|exact (new_own st nx dst bk r D L Hr Hinv)].
+    injection Hr as <-. cbn [panic_res s_nx s_st s_evs drops flat_map]. perm_count.
   - (* ODropVec *)
     destruct (get_a v st) as [av|] eqn:Hg; [|discriminate]. injection Hr as <-.
     pose proof (vis_get_any st v) as Hv. rewrite Hg in Hv. cbn [slot_xs] in Hv.
